@@ -41,13 +41,8 @@ def LMap.nextrev (m : LMap) (i : Id) : List Id := (m.revs.filter (fun r => i ∈
 /-- `_all_nextrev` (children by `down_revision` or dependency) -/
 def LMap.allNextrev (m : LMap) (i : Id) : List Id := (m.revs.filter (fun r => i ∈ r.allDown)).map (·.id)
 
-/-- number of loop iterations `_iterate_related_revisions` can need: every node is expanded at
-    most once and every stack entry is popped once -/
-def closureFuel (succ : Id → List Id) (nodes : List Id) (targets : List Id) : Nat :=
-  targets.length + (nodes.map (fun n => (succ n).length + 1)).foldl (· + ·) 0 + 1
-
 def LMap.closure (m : LMap) (succ : Id → List Id) (targets : List Id) : List Id :=
-  iter succ (closureFuel succ m.ids targets) targets []
+  closureOf succ m.ids targets
 
 /-- `_get_ancestor_nodes(include_dependencies=True)` -/
 def LMap.ancestors (m : LMap) (targets : List Id) : List Id := m.closure m.normDownOf targets
